@@ -471,6 +471,24 @@ func TestFamily(t *testing.T) {
 		}
 		wg.Wait()
 	}
+	// directed witnesses of recorded findings
+	if *flagReplay == "" {
+		for _, wt := range witnessesFor(*flagProperty) {
+			rs, cid, tail := runChild(*flagOut, "witness-"+wt.ID, batchReq{Property: *flagProperty, Seed: *flagSeed, Replay: []Scenario{wt.Scenario()}})
+			if cid >= 0 || len(rs) == 0 {
+				crashes = append(crashes, hcommon.Disagreement{Input: wt.Scenario(), Impl: tail, SpecViolation: true, Finding: wt.ID,
+					Detail: "the implementation crashed or hung on the witness of " + wt.ID})
+				continue
+			}
+			sum.Count("witness." + wt.ID)
+			if wt.Manifests(rs[0].Lines) {
+				sum.KnownFindings = append(sum.KnownFindings, wt.ID+": "+wt.Text)
+			} else {
+				sum.Count("witness." + wt.ID + ".absent")
+			}
+			all = append(all, rs...)
+		}
+	}
 	sort.Slice(all, func(i, j int) bool { return all[i].Scenario.ID < all[j].Scenario.ID })
 
 	scs := make([]Scenario, len(all))
